@@ -1149,7 +1149,7 @@ def r6_5(ctx):
     from ..astutil import inline as _inl, single_defs as _sdf
     _gsd = _sdf(g.node)
     src = " ; ".join(norm(_inl(x, _gsd)) for x in walk_local(g.node) if isinstance(x, ast.expr) and isinstance(x, (ast.BinOp, ast.Compare, ast.IfExp)))
-    ctx.check("_set_attributes & self.bit" in src and "_attributes & self.bit" in src, g.fq, "_Bit.__get__", g.where,
+    ctx.shape("_set_attributes & self.bit" in src and "_attributes & self.bit" in src, g.fq, "_Bit.__get__", g.where,
               "_Bit.__get__ tests the set-mask then the value bit", "_Bit.__get__ no longer reads both masks with self.bit")
 
 
